@@ -260,8 +260,8 @@ def finish(ctx, spec, queries, violations, inconclusive, notes, samples, t0):
                        "rule": "one evaluation = one query / scan listed under 'queries'", "queries": queries, "solver_seconds": round(solver_secs, 2),
                        "checker_cmd": "bin/check %s --tier %s" % (ctx.pid, ctx.tier), "trusted_base": ["clang++-14 (IR of the real functions)", "z3 5.1.0 / z3 4.8.12 / cvc5 1.0.3", "irsym translator (validated against native execution each run)"],
                        "samples": samples or queries[:2], "exhaustive": not inconclusive, "inconclusive": inconclusive, "notes": notes}}
-    os.makedirs(os.path.join(D.VERIF, "evidence"), exist_ok=True)
-    with open(os.path.join(D.VERIF, "evidence", ctx.pid + ".json"), "w") as f:
+    os.makedirs(D.EVIDENCE_DIR, exist_ok=True)
+    with open(os.path.join(D.EVIDENCE_DIR, ctx.pid + ".json"), "w") as f:
         json.dump(ev, f, indent=1, default=str)
     for p in paths:
         print("VIOLATION property=%s replay=%s" % (ctx.pid, p))
